@@ -72,7 +72,8 @@ def strategy_case(draw):
     if rk == "int":
         case["rmax"] = draw(st.integers(1, 6))
     elif rk == "list":
-        case["rmax"] = [1] + [draw(st.integers(1, 6)) for _ in range(d - 1)] + [1]
+        # the boundary entries of a per-bond list are not used by the decomposition (boundary ranks are 1): any value may stand there
+        case["rmax"] = [draw(st.sampled_from([1, 1, 5, 30]))] + [draw(st.integers(1, 6)) for _ in range(d - 1)] + [draw(st.sampled_from([1, 1, 7]))]
     else:
         case["rmax"] = None
     if fam == "b":
@@ -214,10 +215,14 @@ def execute(case):
     kw = {"eps": eps}
     if rmax is not None:
         kw["rmax"] = rmax if not isinstance(rmax, list) else list(rmax)
+    rmax_passed = kw.get("rmax")
     keep = src.copy() if isinstance(src, np.ndarray) else src.clone()
     x = lib(lambda: T.TT(src, shape, **kw) if shape is not None else T.TT(src, **kw))
     same = np.array_equal(keep, src) if isinstance(src, np.ndarray) else torch.equal(keep, src)
     ck.require(same, "input_modified", "the constructor modified its dense input")
+    if isinstance(rmax_passed, list):
+        ck.label("rmax_list")
+        ck.require(rmax_passed == list(rmax), "rmax_list_modified", "the constructor changed the caller's rmax list from %s to %s" % (rmax, rmax_passed))
 
     # (1) shape / kind / rank chain
     if not ck.require(isinstance(x, T.TT), "result_type", "not a TT"):
